@@ -63,6 +63,7 @@ type inlSite struct {
 	off    bool
 	nres   int
 	encl   *types.Signature // signature of the function or literal the statement belongs to
+	stable bool             // formLitPart: everything else the statement reads is a local the helper cannot reach
 }
 
 const (
@@ -73,7 +74,7 @@ const (
 	formDelete  // a dead closure binding or its `_ = name` keep-alive
 	formCond    // a call inside an if condition, hoisted under the guard of its evaluation
 	formRetPart // `return a, h(x)`: the call is one of several results, the others are pure
-	formLitPart // `x := &T{…, F: h(a), …}`: the call is one field value of a literal, the others are pure
+	formLitPart // `x := &T{…, F: h(a), …}`, `f(a, h(b))`: the call is nested in a simple statement whose other impure calls all run after it
 )
 
 type inliner struct {
@@ -1718,8 +1719,9 @@ func (in *inliner) emitSite0(s *inlSite) (rope, bool) {
 		wrapOuter = true
 	}
 	if s.form == formLitPart {
-		// the other field values are read after the call instead of around it: the helper must not write
-		if sig.Results().Len() != 1 || s.callee == nil || !in.p.quietFunc(s.callee, 0) {
+		// the other operands are read after the call instead of around it: the helper must not write,
+		// or they must be out of its reach
+		if sig.Results().Len() != 1 || s.callee == nil || !(s.stable || in.p.quietFunc(s.callee, 0)) {
 			return nil, false
 		}
 		tmp := fmt.Sprintf("inl_l%d", s.id)
@@ -2262,14 +2264,153 @@ func (in *inliner) findSites() {
 			return true
 		})
 		type cand struct {
-			call *ast.CallExpr
-			form int
+			call   *ast.CallExpr
+			form   int
+			stable bool
 		}
+		// a helper call nested in a simple statement — an argument of another call, a field of a literal
+		// that is an argument, … — can be hoisted in front of the statement when every other impure call of
+		// the statement is an ancestor of it (runs after it anyway) and nothing between is conditional
+		nested := func(st ast.Stmt) *cand {
+			switch t := st.(type) {
+			case *ast.ExprStmt, *ast.ReturnStmt:
+			case *ast.AssignStmt:
+				if t.Tok != token.DEFINE && t.Tok != token.ASSIGN {
+					return nil
+				}
+			default:
+				return nil
+			}
+			var stack []ast.Node
+			var h *ast.CallExpr
+			var anc map[ast.Node]bool
+			var others []*ast.CallExpr
+			bad := false
+			ast.Inspect(st, func(m ast.Node) bool {
+				if m == nil {
+					stack = stack[:len(stack)-1]
+					return true
+				}
+				switch t := m.(type) {
+				case *ast.FuncLit:
+					bad = true
+				case *ast.UnaryExpr:
+					if t.Op == token.ARROW {
+						bad = true
+					}
+				case *ast.CallExpr:
+					if tv, isConv := info.Types[t.Fun]; isConv && tv.IsType() {
+						break
+					}
+					ci := p.FuncOf(Callee(info, t))
+					if ci != nil && ci.Pkg == fn.Pkg && ci != fn {
+						if h != nil {
+							bad = true
+						}
+						h = t
+						anc = map[ast.Node]bool{}
+						for _, a := range stack {
+							anc[a] = true
+						}
+					} else {
+						others = append(others, t)
+					}
+				}
+				stack = append(stack, m)
+				return !bad
+			})
+			if bad || h == nil {
+				return nil
+			}
+			exprAnc := 0
+			for a := range anc {
+				switch t := a.(type) {
+				case *ast.BinaryExpr:
+					if t.Op == token.LAND || t.Op == token.LOR {
+						return nil
+					}
+					exprAnc++
+				case ast.Expr:
+					exprAnc++
+				}
+			}
+			if exprAnc == 0 {
+				return nil // the statement's own call: the plain forms apply
+			}
+			inside := func(n ast.Node) bool { return h.Pos() <= n.Pos() && n.End() <= h.End() }
+			for _, o := range others {
+				if !anc[o] && !inside(o) && !in.exprPure(info, o) {
+					return nil
+				}
+			}
+			// stable: outside the helper call the statement only reads locals (never address-taken),
+			// constants and names — nothing the helper could change
+			stable := true
+			ast.Inspect(st, func(m ast.Node) bool {
+				if m == nil || !stable {
+					return false
+				}
+				if m == ast.Node(h) {
+					return false
+				}
+				switch t := m.(type) {
+				case *ast.CallExpr:
+					if !anc[t] {
+						stable = false
+					}
+				case *ast.SelectorExpr:
+					if id, ok := t.X.(*ast.Ident); ok {
+						if _, isPkg := info.Uses[id].(*types.PkgName); isPkg {
+							return false
+						}
+					}
+					if anc[t] {
+						// the callee expression of an ancestor call (x.Method): x is read before the call
+						stable = false
+					}
+					if sel := info.Selections[t]; sel != nil && sel.Kind() == types.FieldVal {
+						stable = false
+					}
+				case *ast.IndexExpr, *ast.StarExpr, *ast.SliceExpr:
+					stable = false
+				case *ast.Ident:
+					switch o := info.ObjectOf(t).(type) {
+					case *types.Var:
+						if o.IsField() {
+							break
+						}
+						if o.Pkg() != nil && o.Parent() == o.Pkg().Scope() {
+							stable = false
+						} else if mutatedAddr(info, fn.Decl.Body, o) {
+							stable = false
+						}
+					}
+				}
+				return stable
+			})
+			return &cand{h, formLitPart, stable}
+		}
+		var classify0 func(st ast.Stmt) []cand
 		classify := func(st ast.Stmt) []cand {
+			out := classify0(st)
+			if n := nested(st); n != nil {
+				dup := false
+				for _, c := range out {
+					if c.call == n.call {
+						dup = true
+					}
+				}
+				if !dup {
+					out = append(out, *n)
+				}
+			}
+			return out
+		}
+		classify0 = func(st ast.Stmt) []cand {
 			switch t := st.(type) {
 			case *ast.ExprStmt:
 				if c, ok := t.X.(*ast.CallExpr); ok {
-					return []cand{{c, formExpr}}
+					return []cand{{call: c, form: formExpr}}
 				}
 			case *ast.AssignStmt:
 				if len(t.Rhs) == 1 && (t.Tok == token.DEFINE || t.Tok == token.ASSIGN) {
@@ -2281,7 +2422,7 @@ func (in *inliner) findSites() {
 								return nil
 							}
 						}
-						return []cand{{c, formAssign}}
+						return []cand{{call: c, form: formAssign}}
 					}
 					// a struct literal with one helper call among otherwise pure field values: hoisting
 					// the call in front of the statement keeps the order of everything observable
@@ -2317,7 +2458,7 @@ func (in *inliner) findSites() {
 										}
 									}
 									if call != nil {
-										return []cand{{call, formLitPart}}
+										return []cand{{call: call, form: formLitPart}}
 									}
 								}
 							}
@@ -2327,7 +2468,7 @@ func (in *inliner) findSites() {
 			case *ast.ReturnStmt:
 				if len(t.Results) == 1 {
 					if c, ok := t.Results[0].(*ast.CallExpr); ok {
-						return []cand{{c, formReturn}}
+						return []cand{{call: c, form: formReturn}}
 					}
 				}
 				if len(t.Results) > 1 {
@@ -2353,7 +2494,7 @@ func (in *inliner) findSites() {
 							return nil
 						}
 					}
-					return []cand{{call, formRetPart}}
+					return []cand{{call: call, form: formRetPart}}
 				}
 			case *ast.IfStmt:
 				if as, ok := t.Init.(*ast.AssignStmt); ok && (as.Tok == token.DEFINE || as.Tok == token.ASSIGN) && len(as.Rhs) == 1 {
@@ -2363,12 +2504,12 @@ func (in *inliner) findSites() {
 								return nil
 							}
 						}
-						return []cand{{c, formIfInit}}
+						return []cand{{call: c, form: formIfInit}}
 					}
 				}
 				var out []cand
 				for _, c := range condCalls(t.Cond) {
-					out = append(out, cand{c, formCond})
+					out = append(out, cand{call: c, form: formCond})
 				}
 				return out
 			}
@@ -2447,7 +2588,7 @@ func (in *inliner) findSites() {
 			}
 			for _, cd := range classify(st) {
 				call, form := cd.call, cd.form
-				s := &inlSite{caller: fn, stmt: st, call: call, form: form}
+				s := &inlSite{caller: fn, stmt: st, call: call, form: form, stable: cd.stable}
 				if len(lits) > 0 {
 					s.encl, _ = info.TypeOf(lits[len(lits)-1]).(*types.Signature)
 				} else {
